@@ -363,7 +363,10 @@ def candidates_for(run, info, before, after, host_before, host_after):
             if status in ('PullRequestDeclined', 'NothingToDo'):
                 child = any(st_before.get(i) == 'OPEN' and st_after.get(i) == 'DECLINED'
                             for i in st_after if i != pr['id'])
-                return [['declined %d %s %s %d' % (pr['id'], pr['src'], dest_code(pr['dst']), child)]]
+                alts = [['declined %d %s %s %d' % (pr['id'], pr['src'], dest_code(pr['dst']), child)]]
+                if status == 'NothingToDo':      # also what a `wait` option gives, before the clone
+                    alts.append([pr_item(pr, 'e', '-', [])])
+                return alts
             return [[pr_item(pr, 'e', '-', [])]]
         if status == 'ResetComplete':
             return [['reset %d %s %s' % (pr['id'], pr['src'], dest_code(pr['dst']))]]
